@@ -698,6 +698,14 @@ def gen_melody_case(rng):
         if rng.random() < 0.1:
             prog = rng.choice(PROGRAM_EDGES)
         d['notes'].append([p, a, b, rng.choice([0, 0, 1, 2, 8, 8]), prog, drum])
+    if d['notes'] and rng.random() < 0.15:
+        # long frames (notes held for tens of seconds up to minutes): the per-frame emission is probability ** duration, so
+        # with the default 1e-15 per second a 25 s frame has likelihood 1e-375 - representable only in the log domain
+        # (seed C19-17 computed log(p ** d): underflow turns 'very unlikely' into 'impossible')
+        k = rng.choice([4.0, 8.0, 32.0])
+        for n in d['notes']:
+            n[1], n[2] = n[1] * k, n[2] * k
+        hist.append('long-frames')
     ends = [n[2] for n in d['notes']]
     mx = max(ends + [0.0])
     # a zero-length note sitting exactly on total_time is excluded (reported separately: F-C19-1 candidate)
